@@ -89,6 +89,7 @@ def corners(tier):
         if s.kind == "trigger" and s.tool in ("semgrep", "defectdojo") and s.batchable and s.id.endswith(".01"):
             argv, res = resultfiles.argv_and_files(s.tool, [resultfiles.relocate(s.tool, s.results, "code.py")])
             c[f"{s.tool}:{s.codemod.split('/')[-1]}"] = J(files={"code.py": s.input.encode()}, argv=["{dir}", "--codemod-include", s.codemod] + argv, results=res)
+            c[f"{s.tool}:{s.codemod.split('/')[-1]}:with-manifest"] = J(files={"code.py": s.input.encode(), "requirements.txt": b"requests\n"}, argv=["{dir}", "--codemod-include", s.codemod] + argv, results=res)
     # faults (harness-injected): IF the run completes and writes its report, the report must still be consistent - a file that
     # failed is not also reported as changed, every changeset names a file that exists.  A run that aborts is not judged here.
     for cm, src in (("pixee:python/use-generator", GEN), ("pixee:python/harden-pickle-load", pick)):
@@ -97,6 +98,11 @@ def corners(tier):
             spec = {"file": "locked.py", "kind": kind, "at": "last"}
             c[f"fault:{kind}:{short}"] = J(files={"locked.py": src, "pkg/free.py": src, "requirements.txt": b"requests\n"}, argv=["{dir}", "--codemod-include", cm + ",pixee:python/use-set-literal"],
                                            pre_hook="cmverif.faults:install", pre_hook_arg={"faults": [spec]})
+    for s in progspace.load_seeds():
+        if s.kind == "trigger" and s.tool == "sonar" and s.batchable and s.id.endswith(".01") and s.codemod.split("/")[-1] in ("url-sandbox", "sandbox-process-creation"):
+            argv, res = resultfiles.argv_and_files("sonar", [resultfiles.relocate("sonar", s.results, "code.py")])
+            for man, data in (("requirements.txt", b"requests\n"), ("setup.cfg", ms.SETUP_CFG["multiline"].encode()), ("pyproject.toml", ms.PYPROJECT["pep621-multiline"].encode())):
+                c[f"sonar:{s.codemod.split('/')[-1]}:with-{man}"] = J(files={"code.py": s.input.encode(), man: data}, argv=["{dir}", "--codemod-include", s.codemod] + argv, results=res)
     c["default-set"] = J(files=default_set_project(), argv=["{dir}"])
     files, argv, res = sonar_set_project()
     c["sonar-set"] = J(files=files, argv=["{dir}"] + argv, results=res)
